@@ -68,7 +68,11 @@ class MsgGen:
         auth_fields = []
         if nsess:
             # nsess == -1: session tag with authSize 0 (an authorization area that is present and empty)
-            ss = [self.session(False, decrypt=decrypt and i == 0, encrypt=encrypt and i == 0) for i in range(max(nsess, 0))]
+            # the session that requests decryption / response encryption is any of them, not necessarily the first, and the
+            # two requests may sit on different sessions (`is_parameter_encryption` is an `any(...)` over the area)
+            di = self.rnd.randrange(max(nsess, 1))
+            ei = self.rnd.randrange(max(nsess, 1))
+            ss = [self.session(False, decrypt=decrypt and i == di, encrypt=encrypt and i == ei) for i in range(max(nsess, 0))]
             sb = b"".join(b for _, b in ss)
             asz = self.u32("UINT32", len(sb))
             auth_fields = [("authSize", asz[0]), ("authorizationArea", ("L", [v for v, _ in ss]))]
@@ -103,7 +107,8 @@ class MsgGen:
         if nsess:
             psz = self.u32("UINT32", len(pb))
             mid = [("parameterSize", psz[0])]
-            ss = [self.session(True, encrypt=encrypt and i == 0) for i in range(max(nsess, 0))]
+            ei = self.rnd.randrange(max(nsess, 1))
+            ss = [self.session(True, encrypt=encrypt and i == ei) for i in range(max(nsess, 0))]
             sb = b"".join(b for _, b in ss)
             body += psz[1] + pb + sb
             tail = [("authorizationArea", ("L", [v for v, _ in ss]))]
